@@ -23,6 +23,9 @@ ASSUMPTIONS = [
 def gen_mech(rng, nsrc=None):
     nsrc = nsrc or rng.choice([1, 1, 2, 2, 3])
     srcs = [ec.gen_source(rng) for _ in range(nsrc)]
+    # sources that compare equal but are represented differently (unreduced counts, zero-count faces)
+    if nsrc >= 2 and "h" in srcs[0] and rng.random() < 0.35:
+        srcs[1] = ec.twin_of(rng, srcs[0])
     keys = list(ec.all_keys(srcs))
     if len(keys) > 60:
         srcs = srcs[:1]
